@@ -1,6 +1,8 @@
 (* Property C03 - recording length: min-secs past the last motion, never more than max-secs. *)
 From Coq Require Import List ZArith Bool.
 From TR Require Import model.Ring model.Processor model.ProcAbs model.ProcSpec proofs.ProcS0304.
+(* constants and wiring read from the Go sources on every run *)
+From TR Require Import proofs.FactsProc.
 Import ListNotations.
 Open Scope Z_scope.
 
